@@ -314,6 +314,13 @@ func (r *Run) walkFields(fn *Func, info *types.Info, x ast.Expr, write bool, f f
 			}
 		}
 	case *ast.SelectorExpr:
+		if fv, ok := r.P.synthSel[v]; ok {
+			if tv, ok := info.Types[v.X]; ok {
+				if owner, ok := derefNamedT(tv.Type); ok && isRepoPkg(owner.Obj().Pkg()) {
+					f(v, fv, owner, write)
+				}
+			}
+		}
 		if sel, ok := info.Selections[v]; ok && sel.Kind() == types.FieldVal {
 			if fv, ok := sel.Obj().(*types.Var); ok {
 				if owner, ok := derefNamedT(sel.Recv()); ok && isRepoPkg(owner.Obj().Pkg()) {
@@ -1101,6 +1108,84 @@ func reach(g map[string]map[string]acqEdge, from, to string) bool {
 
 // ruleLockPairing: every Lock/RLock is released on every path (deferred, or explicitly before each exit),
 // with the matching kind of unlock.
+// containsLock: a value of this type carries a sync lock (or Once / WaitGroup) by value.
+func containsLock(t types.Type, depth int) bool {
+	if depth > 4 {
+		return false
+	}
+	if isSyncType(t, "Mutex", "RWMutex", "Once", "WaitGroup") {
+		if _, ptr := t.(*types.Pointer); !ptr {
+			return true
+		}
+		return false
+	}
+	switch u := t.Underlying().(type) {
+	case *types.Struct:
+		if _, named := t.(*types.Named); !named && depth > 0 {
+			// anonymous struct: look inside as well
+		}
+		for i := 0; i < u.NumFields(); i++ {
+			if containsLock(u.Field(i).Type(), depth+1) {
+				return true
+			}
+		}
+	case *types.Array:
+		return containsLock(u.Elem(), depth+1)
+	}
+	return false
+}
+
+// ruleNoLockCopy (F6c): a struct that carries a lock is never copied — no value receiver, value
+// parameter, value result, dereferencing assignment or range value of such a type: a method with a value
+// receiver locks its own private copy and excludes nobody.
+func ruleNoLockCopy(r *Run) {
+	if r.broken() {
+		return
+	}
+	n := 0
+	for _, fn := range r.P.All {
+		if fn.Obj == nil {
+			continue
+		}
+		sig := fn.Obj.Type().(*types.Signature)
+		if rv := sig.Recv(); rv != nil {
+			n++
+			r.Check("F6c", fn.Name+":receiver", !containsLock(rv.Type(), 0), fn.Body.Pos(),
+				"the receiver of %s is a value of a type that carries a lock: every call works on (and locks) a private copy", fn.Name)
+		}
+		for i := 0; i < sig.Params().Len(); i++ {
+			if containsLock(sig.Params().At(i).Type(), 0) {
+				r.Check("F6c", fmt.Sprintf("%s:param[%d]", fn.Name, i), false, fn.Body.Pos(), "parameter %d of %s passes a lock-carrying struct by value", i, fn.Name)
+			}
+		}
+		info := fn.Info()
+		ast.Inspect(fn.Body, func(nd ast.Node) bool {
+			switch v := nd.(type) {
+			case *ast.AssignStmt:
+				for _, rh := range v.Rhs {
+					if st, ok := ast.Unparen(rh).(*ast.StarExpr); ok {
+						if tv, ok := info.Types[st]; ok && containsLock(tv.Type, 0) {
+							r.Check("F6c", fn.Name+":deref-copy", false, st.Pos(), "%s copies a lock-carrying struct out of a pointer", fn.Name)
+						}
+					}
+				}
+			case *ast.RangeStmt:
+				if v.Value != nil {
+					if tv, ok := info.Types[v.Value]; ok && containsLock(tv.Type, 0) {
+						r.Check("F6c", fn.Name+":range-copy", false, v.Value.Pos(), "%s ranges over lock-carrying structs by value", fn.Name)
+					} else if id, isID := v.Value.(*ast.Ident); isID {
+						if obj := info.Defs[id]; obj != nil && containsLock(obj.Type(), 0) {
+							r.Check("F6c", fn.Name+":range-copy", false, v.Value.Pos(), "%s ranges over lock-carrying structs by value", fn.Name)
+						}
+					}
+				}
+			}
+			return true
+		})
+	}
+	r.Floor("F6c", "methods examined", n, 50)
+}
+
 func ruleLockPairing(r *Run) {
 	if r.broken() {
 		return
